@@ -36,9 +36,12 @@ mod verif_kani {
         let cap = 1usize << d;
         let mut leaves = [TFr(0); MAXCAP];
         let mut nodes = vec![TFr(0); 2 * cap - 1];
+        let next_index: usize = kani::any();
+        kani::assume(next_index <= cap);
         let mut k = 0;
         while k < cap {
-            leaves[k] = TFr(kani::any());
+            // wf: positions at or above the high-water mark hold the default leaf
+            leaves[k] = if k < next_index { TFr(kani::any()) } else { TFr(0) };
             nodes[cap - 1 + k] = leaves[k];
             k += 1;
         }
@@ -50,11 +53,10 @@ mod verif_kani {
         let mut flags = vec![0u8; cap];
         let mut k = 0;
         while k < cap {
-            flags[k] = kani::any();
+            // wf: positions at or above the high-water mark are not marked written
+            flags[k] = if k < next_index { kani::any() } else { 0 };
             k += 1;
         }
-        let next_index: usize = kani::any();
-        kani::assume(next_index <= cap);
         let t = FullMerkleTree::<TH> {
             depth: d,
             cached_nodes: vec![TFr(kani::any()); d + 1],
